@@ -193,6 +193,20 @@ class SharedMemoryFileBufferedCollection(FileBufferedCollection):
         # depend on the thread-safety of built-in containers.
         with self._buffer_lock:
             if self._filename in type(self)._buffer:
+                # Operations that do not load first (clear and reset on a root)
+                # may have changed this object's own copy of the data rather
+                # than the container shared through the buffer. The buffer has
+                # to hold what is being saved, so move the data over in place.
+                contents = type(self)._buffer[self._filename]["contents"]
+                if contents is not self._data:
+                    own_data = self._data
+                    contents.clear()
+                    if isinstance(contents, dict):
+                        contents.update(own_data)
+                    else:
+                        contents.extend(own_data)
+                    self._data = contents
+
                 # Always track all instances pointing to the same data.
 
                 # If all we had to do is set the flag, it could be done without any
